@@ -157,3 +157,95 @@ fn c20_roundtrip_other_widths() {
         }
     }
 }
+
+// @props C20
+// @fns impl Serialize for SerializableKValue (Null / Bool / Number arms: the value side of json.to_string, yaml.to_string, toml.to_string) driven into koto's own Serializer
+// @bound any number (integer or float, all 2^64 payloads), both booleans, null: the value that reaches the data format has the same kind and the same value (an integer stays an integer at full 64-bit precision, a float stays a float bit for bit)
+// @assume std::fmt::format stubbed; lazy! cut; the value is built in the harness, so its variant is statically known
+// @kani --no-memory-safety-checks --no-assertion-reach-checks
+// @timeout 1200
+// @mem 10
+#[kani::proof]
+#[kani::unwind(3)]
+#[kani::stub(std::fmt::format, stub_format)]
+#[kani::stub(std::rt::thread_cleanup, noop_thread_cleanup)]
+fn c20_value_scalars_serialize() {
+    use crate::SerializableKValue;
+    let n = any_num();
+    let v = KValue::Number(n);
+    match to_koto_value(SerializableKValue(&v)) {
+        Ok(out) => {
+            let same = match (&out, n) {
+                (KValue::Number(KNumber::I64(a)), KNumber::I64(b)) => *a == b,
+                (KValue::Number(KNumber::F64(a)), KNumber::F64(b)) => a.to_bits() == b.to_bits() || (a.is_nan() && b.is_nan()),
+                _ => false,
+            };
+            assert!(same, "C20.value: a number is serialized with its own kind and its exact value");
+            std::mem::forget(out);
+        }
+        Err(e) => {
+            std::mem::forget(e);
+            assert!(false, "C20.value: numbers serialize");
+        }
+    }
+    let b: bool = kani::any();
+    let vb = KValue::Bool(b);
+    match to_koto_value(SerializableKValue(&vb)) {
+        Ok(out) => {
+            assert!(matches!(&out, KValue::Bool(c) if *c == b), "C20.value: a bool is serialized as itself");
+            std::mem::forget(out);
+        }
+        Err(e) => {
+            std::mem::forget(e);
+            assert!(false, "C20.value: bools serialize");
+        }
+    }
+    kani::cover!(matches!(n, KNumber::I64(i) if i > (1 << 53) && i % 2 == 1), "an odd integer above 2^53");
+    std::mem::forget(v);
+    std::mem::forget(vb);
+}
+
+fn char_case(c: char) {
+    match to_koto_value(c) {
+        Ok(v) => {
+            assert!(matches!(&v, KValue::Str(s) if s.len() == c.len_utf8()), "C20.char: a char becomes a string of its UTF-8 length");
+            match from_koto_value::<char>(v) {
+                Ok(d) => assert!(d == c, "C20.char: a char converted to a Koto value and back is unchanged"),
+                Err(e) => {
+                    std::mem::forget(e);
+                    assert!(false, "C20.char: a converted char converts back");
+                }
+            }
+        }
+        Err(e) => {
+            std::mem::forget(e);
+            assert!(false, "C20.char: chars serialize");
+        }
+    }
+}
+
+// @props C20
+// @tier thorough
+// @fns Serializer::serialize_char (encode_utf8 -> Str), Deserializer::deserialize_char
+// @bound one character of each UTF-8 length with symbolic low bits: U+0041 | 5 bits, U+00C0 | 5 bits, U+5B40 | 5 bits, U+1D100 | 5 bits (a fully symbolic scalar value did not finish in 1500 s: string construction with a symbolic length)
+// @assume std::fmt::format stubbed; lazy! cut
+// @kani --no-memory-safety-checks --no-assertion-reach-checks
+// @timeout 2400
+// @mem 12
+#[kani::proof]
+#[kani::unwind(7)]
+#[kani::stub(std::fmt::format, stub_format)]
+#[kani::stub(std::rt::thread_cleanup, noop_thread_cleanup)]
+fn c20_char_roundtrip() {
+    let low: u32 = kani::any();
+    kani::assume(low < 32);
+    let bases = [0x41u32, 0xC0, 0x5B40, 0x1D100];
+    let mut i = 0;
+    while i < 4 {
+        if let Some(c) = char::from_u32(bases[i] | low) {
+            char_case(c);
+        }
+        i += 1;
+    }
+    kani::cover!(low == 30, "low bits 30");
+}
